@@ -24,6 +24,7 @@ CACHE = os.path.join(VERIF, ".cache")
 BIN = os.path.join(CACHE, "bin")
 TMP = os.path.join(CACHE, "tmp")
 VH = os.path.join(BIN, "vh")
+VH_RACE = os.path.join(BIN, "vh-race")
 TABLEAUC = os.path.join(BIN, "tableauc")
 EXTRACTOR = os.path.join(BIN, "vextract")
 DRIVER = os.path.join(LEAN, ".lake", "build", "bin", "tvdriver")
@@ -393,6 +394,28 @@ def sharded(cmd, lines, crash_token, shards=None, env=None):
     return out
 
 
+def build_race(bs):
+    """the harness once more, with Go's race detector compiled in (needs cgo): used for the `race_streams` of a
+    property. Returns an error text when the build is not possible."""
+    stamp = os.path.join(BIN, "race_stamp.json")
+    want = {"tree": bs.tree or tree_hash(), "harness": verif_hash("harness")}
+    try:
+        have = json.load(open(stamp))
+    except Exception:
+        have = {}
+    if have == want and os.path.exists(VH_RACE):
+        return ""
+    for p in (VH_RACE, stamp):
+        if os.path.exists(p):
+            os.remove(p)
+    env = dict(GOENV, CGO_ENABLED="1")
+    rc, out, err = run(["go", "build", "-race", "-tags", "verif", "-o", VH_RACE, "./cmd/vh"], cwd=HARNESS, env=env, timeout=1800)
+    if rc != 0:
+        return err[-1500:]
+    json.dump(want, open(stamp, "w"))
+    return ""
+
+
 def impl_env():
     e = dict(os.environ)
     e["VERIF_TMP"] = TMP
@@ -439,9 +462,9 @@ def oracle_name(fn):
     return "o." + fn
 
 
-def run_stream(stream, seed, n, oracle_fns, shards=None, prep=None):
+def run_stream(stream, seed, n, oracle_fns, shards=None, prep=None, race=False):
     t0 = time.time()
-    sr = StreamResult(stream)
+    sr = StreamResult(stream + ("@race" if race else ""))
     ops = corpus_ops(stream) + gen_ops(stream, seed, n)
     if prep:
         # the generator emitted CASES; the Lean spec writer (driver op `w.<fn>`) expands each into the op proper
@@ -457,7 +480,11 @@ def run_stream(stream, seed, n, oracle_fns, shards=None, prep=None):
             uniq.append(o)
     sr.ops = len(ops)
     sr.distinct = len(uniq)
-    impl = sharded([VH, "impl"], uniq, "PANIC", shards=shards, env=impl_env())
+    if race:
+        # a detected data race ends the worker (GORACE halt_on_error): the op is answered PANIC
+        impl = sharded([VH_RACE, "impl"], uniq, "PANIC", shards=shards, env=dict(impl_env(), GORACE="halt_on_error=1", GOMEMLIMIT="6GiB"))
+    else:
+        impl = sharded([VH, "impl"], uniq, "PANIC", shards=shards, env=impl_env())
     model = sharded([DRIVER], uniq, "MODEL-CRASH", shards=shards)
     if len(impl) != len(uniq) or len(model) != len(uniq):
         raise MachineryError("stream %s: output count mismatch impl=%d model=%d ops=%d" % (stream, len(impl), len(model), len(uniq)))
@@ -666,6 +693,15 @@ def check_property(prop, tier, seed):
             return run_stream(name, seed, n, oracle_fns, shards=(sc[3] if len(sc) > 3 else None), prep=PROPS.PREP.get(name))
         with cf.ThreadPoolExecutor(max_workers=max(1, min(4, len(stream_cfgs)))) as ex:
             results = list(ex.map(one, stream_cfgs))
+        race_cfgs = cfg.get("race_streams", [])
+        if race_cfgs:
+            rerr = build_race(bs)
+            if rerr:
+                notes.append("race-detector build of the harness not possible here, race streams skipped: " + rerr[-300:])
+            else:
+                for sc in race_cfgs:
+                    n = sc[1] if tier == "quick" else sc[2]
+                    results.append(run_stream(sc[0], seed, n, oracle_fns, shards=(sc[3] if len(sc) > 3 else None), prep=PROPS.PREP.get(sc[0]), race=True))
         for sr in results:
             sr.model_fails = [x for x in sr.model_fails if not known_match(kf_list, prop, sr.name, x[0], x[2])]
             if sr.model_fails:
